@@ -126,6 +126,10 @@ impl Monitor for C02 {
                 2 => { lines.push(format!("{} {}", text, text)); docs.push(None); }
                 3 => { lines.push(String::new()); docs.push(None); }
                 4 => { lines.push("not json at all".into()); docs.push(None); }
+                // a document with a character around it that is white space for Unicode but not for JSON: not a JSON text.
+                // (blank, tab, CR are JSON white space: the document stays one)
+                5 => { let w = *rng.pick(&["\u{c}", "\u{b}", "\u{a0}", "\u{3000}", "\u{2028}", "\u{feff}", "\u{85}", "\u{2003}"]); lines.push(match rng.below(3) { 0 => format!("{}{}", w, text), 1 => format!("{}{}", text, w), _ => format!("{}{}{}", w, text, w) }); docs.push(None); }
+                6 => { let w = *rng.pick(&[" ", "\t", "\r", "  \t "]); lines.push(match rng.below(3) { 0 => format!("{}{}", w, text), 1 => format!("{}{}", text, w), _ => format!("{}{}{}", w, text, w) }); docs.push(Some(doc)); }
                 _ => { lines.push(text); docs.push(Some(doc)); }
             }
         }
